@@ -102,7 +102,11 @@ func mixerRunCase(ctx *Ctx, sel string, l1, l2 []int, r1, r2 bool, ops []string)
 
 func mixerRunOne(ctx *Ctx, sel string, l1, l2 []int, r1, r2, g1, g2 bool, ops []string) {
 	mkp := func(l []int, r bool) iterable.Iterator[int] {
-		it := iterable.WrapIntSlice(append([]int{}, l...))
+		cp := append([]int{}, l...)
+		if len(l) == 0 && strings.Count(strings.Join(ops, " "), "next")%2 == 0 {
+			cp = nil // an empty input is as often a nil slice as an empty one: both are inputs like any other (also for Reset)
+		}
+		it := iterable.WrapIntSlice(cp)
 		if r {
 			return it
 		}
@@ -278,7 +282,7 @@ func runMixer(ctx *Ctx) {
 	if ctx.Thorough {
 		depth = 8
 	}
-	small := [][2][]int{{{1, 2}, {2, 3}}, {{2}, {1, 2}}, {{}, {1}}, {{1, 1}, {1}}, {{3, 1}, {2}}}
+	small := [][2][]int{{{1, 2}, {2, 3}}, {{2}, {1, 2}}, {{}, {1}}, {{1, 1}, {1}}, {{3, 1}, {2}}, {{1, 2}, {}}, {{}, {}}}
 	alpha := []string{"hasNext", "next", "reset"}
 	for _, pr := range small {
 		for _, sel := range []string{"lt", "le"} {
